@@ -330,7 +330,7 @@ func c17HashSpace(c *fw.Ctx) {
 	if c.Thorough {
 		iters = append(iters, 11, 12, 255, 256, 1000, 2500, 65534)
 	}
-	c.Space("nsec3hash", fmt.Sprintf("14 names (root, apex, wildcard, underscore, escaped dot, octets 0 and 255, raw UTF-8 À, a raw non-UTF-8 octet, 63-octet label, 255-octet name, …) × salts of {0,1,8,255} octets × iterations %v × spellings {lower, upper, alternating, one upper-case letter as \\DDD}; non-trivial: iterations > 0 or salt non-empty", iters), true,
+	c.Space("nsec3hash", fmt.Sprintf("14 names (root, apex, wildcard, underscore, escaped dot, octets 0 and 255, raw UTF-8 À, a raw non-UTF-8 octet, 63-octet label, 255-octet name, …) × salts of {0,1,8,255} octets × iterations %v × spellings {lower, upper, alternating, one upper-case letter as \\DDD}, each call preceded by one that cannot give a hash (bad salt, unknown algorithm, bad name); non-trivial: iterations > 0 or salt non-empty", iters), true,
 		func(emit func(func(*fw.R))) {
 			for _, lower := range c17Names {
 				for _, sl := range c17Salts {
@@ -342,8 +342,17 @@ func c17HashSpace(c *fw.Ctx) {
 								r.Nontrivial()
 							}
 							want := canon.NSEC3Hash(c10Labels(lower), salt, it)
+							nPre := 0
 							for _, form := range c17Forms(lower) {
 								for _, saltHex := range []string{hex.EncodeToString(salt), strings.ToUpper(hex.EncodeToString(salt))} {
+									// the call before the judged one is one that cannot give a hash (salt of odd length, salt that is
+									// not hex, unknown hash algorithm, name that cannot be packed): what it leaves behind — a pooled or
+									// cached digest state — may not reach the next call
+									pre := [...][3]string{{form.name, "abc", "1"}, {form.name, "zz", "1"}, {form.name, saltHex, "2"}, {"bad..name.", saltHex, "1"}}[nPre%4]
+									nPre++
+									if junk := dns.HashName(pre[0], uint8(pre[2][0]-'0'), it, pre[1]); junk != "" {
+										r.Fail("hashname/no-hash", "HashName(%q, hash %s, %d, %q) = %q, want \"\"", pre[0], pre[2], it, pre[1], junk)
+									}
 									got := dns.HashName(form.name, dns.SHA1, it, saltHex)
 									gb, err := canon.FromBase32Hex(got)
 									if err == nil && bytes.Equal(gb, want[:]) && got == strings.ToUpper(got) {
